@@ -33,6 +33,11 @@ static const char *const T_C01[] = {
 	"cold; S0 | a0 | a0",
 	"cold; G0 | a0 | a0",
 	"cold; S0 | a0 s0",
+	// pool exhaustion: every pool thread (2 CPUs) is parked inside an item waiting for an item queued later on the same global queue;
+	// the pool monitor's 1 s tick (virtual) has to add a thread
+	"G0 | x0 x0 y0",
+	"G0 | x0 x0 | y0",
+	"G0 C1>0 | x1 x1 y1",
 	0
 };
 QP_HARNESS(h_q01, "q01", "C01", T_C01, 0);
@@ -157,6 +162,9 @@ static const char *const T_C05[] = {
 	"S0 | a0 a0 | s0 B0",
 	"S0 | a0 a0 | w0 s0",
 	"S0 | a0 a0 a0 | s0 s0 s0",
+	"slow; S0 | a0 a0 a0 | s0 s0 s0",
+	"slow; S0 | a0 a0 | s0 s0",
+	"slow; S0 | a0 a0 | w0 B0",
 	0
 };
 QP_HARNESS(h_q05, "q05", "C05", T_C05, 0);
